@@ -22,7 +22,7 @@ func init() {
 		[]string{"uint8 arithmetic wraps"},
 		runC09)
 	register("C10",
-		"GBNHS-1: in serverHandshake the N echoed in the SYN reply and the argument of setN are the same value, read from the N field of a received PacketSYN and proved <= 254; the 'resent' shortcut can only be taken after a SYN was processed. GBNHS-2: in clientHandshake the SYNACK is sent only under respSYN.N == cfg.n and the unequal leg returns an error. GBNHS-3: while waiting for SYN a successfully parsed non-SYN packet cannot complete the handshake without another receive (client: any type; server: except SYNACK/DATA after a restart). GBNHS-4: NewClientConn rejects n == 255 before the config is built. GBNHS-6: every blocking wait of a handshake function that has a timeout alternative is entered with a freshly armed timeout (time.After evaluated, or the timer Reset, on every path from the wait back to itself); every nil return of serverHandshake outside the quit/ctx cases is preceded by setN. GBNHS-5: in both handshake functions every blocking wait on the local packet channel is preceded - from function entry and from the point where the previous packet was taken - by a send attempt on the local token channel that lets the reader goroutine perform the next receive (so a stale packet that is ignored does not leave the handshake waiting for a timeout). Not decided: convergence under loss/duplication/stale packets and success once the transport behaves (liveness).",
+		"GBNHS-1: in serverHandshake the N echoed in the SYN reply and the argument of setN are the same value, read from the N field of a received PacketSYN and proved <= 254; the 'resent' shortcut can only be taken after a SYN was processed. GBNHS-2: in clientHandshake the SYNACK is sent only under respSYN.N == cfg.n and the unequal leg returns an error. GBNHS-3: while waiting for SYN a successfully parsed non-SYN packet cannot complete the handshake without another receive (client: any type; server: except SYNACK/DATA after a restart). GBNHS-4: NewClientConn rejects n == 255 before the config is built. GBNHS-7: in clientHandshake every path from a timeout leg back to the wait passes a send of a serialized SYN; the server's restart shortcut is entered only through a successful type test for SYNACK or DATA. GBNHS-6: every blocking wait of a handshake function that has a timeout alternative is entered with a freshly armed timeout (time.After evaluated, or the timer Reset, on every path from the wait back to itself); every nil return of serverHandshake outside the quit/ctx cases is preceded by setN. GBNHS-5: in both handshake functions every blocking wait on the local packet channel is preceded - from function entry and from the point where the previous packet was taken - by a send attempt on the local token channel that lets the reader goroutine perform the next receive (so a stale packet that is ignored does not leave the handshake waiting for a timeout). Not decided: convergence under loss/duplication/stale packets and success once the transport behaves (liveness).",
 		nil,
 		runC10)
 }
@@ -1202,6 +1202,58 @@ func runC10(c *Checker) {
 			"the client can report a completed handshake at "+bad+" without having sent SYNACK: the server keeps waiting and restarts while the client already sends data")
 	}
 
+	// ---- GBNHS-7: a handshake timeout makes the client send its SYN again ----
+	{
+		var synSends []ssa.Instruction
+		for _, ci := range findCalls(ch, func(ci ssa.CallInstruction) bool {
+			f := chanField(ci.Common().Value)
+			return f != nil && f.Name() == "sendToStream"
+		}) {
+			for _, a := range ci.Common().Args {
+				for _, v := range expandValues(a) {
+					if ex, ok := unwrapLoadAlloc(v).(*ssa.Extract); ok {
+						if call, ok := ex.Tuple.(*ssa.Call); ok && call.Common().StaticCallee() != nil && strings.Contains(fnName(call.Common().StaticCallee()), "PacketSYN)") {
+							synSends = append(synSends, ci)
+						}
+					}
+				}
+			}
+		}
+		isSynSend := func(in ssa.Instruction) bool {
+			for _, sd := range synSends {
+				if in == sd {
+					return true
+				}
+			}
+			return false
+		}
+		n := 0
+		allInstrs(ch, func(in ssa.Instruction) {
+			sel, ok := in.(*ssa.Select)
+			if !ok || !sel.Blocking {
+				return
+			}
+			cases, _ := w.selectCases(sel)
+			for _, sc := range cases {
+				ch2, isCh := sc.Chan.Type().Underlying().(*types.Chan)
+				if sc.IsSend || !isCh || sc.Body == nil {
+					continue
+				}
+				if nt := namedOf(ch2.Elem()); nt == nil || nt.Obj().Name() != "Time" {
+					continue
+				}
+				n++
+				again := pathFromBlockEntry(sc.Body, sel, isSynSend)
+				c.decide(len(synSends) > 0 && !again, "GBNHS-7", fmt.Sprintf("clientHandshake|timeout-%d resends SYN", n), instrPos(sel),
+					"every path from the timeout leg back to the wait passes a send of a serialized PacketSYN",
+					"after a handshake timeout the client can wait again without having sent another SYN: a lost SYN or SYN reply is never repaired and both constructors hang")
+			}
+		})
+		if n == 0 {
+			c.fail("GBNHS-7", "clientHandshake|timeout leg", ch.Pos(), "no wait with a timeout alternative found in clientHandshake")
+		}
+	}
+
 	// ---- GBNHS-6: the handshake timeout is re-armed for every wait ----
 	for _, fn := range []*ssa.Function{ch, sh} {
 		ruleHandshakeTimerRearmed(c, fn)
@@ -1347,6 +1399,7 @@ func ruleNonSynIgnored(c *Checker, fn *ssa.Function) {
 		})
 	}
 	found, okk := false, true
+	okShortcut := true
 	for _, b := range fn.Blocks {
 		if !hasFact(b, isNonSyn) || len(b.Instrs) == 0 {
 			continue
@@ -1395,6 +1448,57 @@ func ruleNonSynIgnored(c *Checker, fn *ssa.Function) {
 		if walk(b) {
 			okk = false
 		}
+		// the restart shortcut itself is only for a SYNACK or a DATA packet: a block under the restart
+		// flag must not be reachable from the non-SYN region without crossing an edge on which the
+		// packet was identified as one of the two (a FIN/ACK/NACK of an abandoning or earlier client
+		// must not complete the handshake)
+		if isServer {
+			isAckOrData := func(f Fact) bool {
+				ex, ok := f.Cond.(*ssa.Extract)
+				if !ok || !f.Val || ex.Index != 1 {
+					return false
+				}
+				ta, ok := ex.Tuple.(*ssa.TypeAssert)
+				if !ok || namedOf(ta.AssertedType) == nil {
+					return false
+				}
+				n := namedOf(ta.AssertedType).Obj().Name()
+				return n == "PacketSYNACK" || n == "PacketData"
+			}
+			seen2 := map[*ssa.BasicBlock]bool{b: true}
+			work := []*ssa.BasicBlock{b}
+			for len(work) > 0 && okShortcut {
+				x := work[len(work)-1]
+				work = work[:len(work)-1]
+				if restartOK(x) {
+					okShortcut = false
+					break
+				}
+				for _, in := range x.Instrs {
+					for _, r := range receives {
+						if in == r {
+							goto next
+						}
+					}
+				}
+				for _, sct := range x.Succs {
+					if seen2[sct] || !edgeFeasible(x, sct) {
+						continue
+					}
+					if f, ok := edgeFact(x, sct); ok && isAckOrData(f) {
+						continue
+					}
+					seen2[sct] = true
+					work = append(work, sct)
+				}
+			next:
+			}
+		}
+	}
+	if isServer {
+		c.decide(okShortcut, "GBNHS-3", fnName(fn)+"|restart shortcut only for SYNACK or DATA", fn.Pos(),
+			"the leg that completes after a restart is entered only through a successful type test for SYNACK or DATA",
+			"after a restart any non-SYN packet (FIN, ACK, NACK of an abandoning or earlier client) completes the server's handshake: it enters the data phase although no client finished")
 	}
 	c.decide(found && okk, "GBNHS-3", fnName(fn)+"|non-SYN ignored while waiting for SYN", fn.Pos(),
 		"a parsed non-SYN packet leads back to the receive (or, on the server after a restart, SYNACK/DATA completes)",
